@@ -535,7 +535,7 @@ Print Assumptions inlines_unreachable_sites_are.
      a delimiter that is not a quote: k copies of d_char, 1 <= k <= d_len (k = what insert_emph left), END COLUMN >= k;
      a quote delimiter: one of the four curly quotes;     a bracket: the Text `[` / `![`;
    sibling ids are unique, entry positions are <= pos.  TESTED before proving: evaluated in every state of the main
-   loop and in every iteration of the closer loop of the final process_emphasis on 6170 delimiter-heavy contents x 4
+   loop and in every iteration of the closer loop of the final process_emphasis on 6134 delimiter-heavy contents x 4
    option sets (vm_compute; nested / overlapping emphasis, links in emphasis, remove_delimiters after a link match,
    strikethrough / underline / spoiler / superscript runs, smart quotes, footnote references, wikilinks, autolinks).
    PROVED: (S) is kept by every arm of parse_inline (frame + append; handle_delim push: the new Text is numdelims
@@ -592,3 +592,30 @@ Theorem inlines_total_autolink_off_example :
   /\ first_line_not_blank InlinesTotal3Main.ex3_input = true /\ line_endings InlinesTotal3Main.ex3_input < 1.
 Proof. exact InlinesTotal3Main.ex3_premises. Qed.
 Print Assumptions inlines_total_autolink_off_example.
+
+(* ---- 1i. what is left: invariant (T) ----
+   inlines_T_statement: in every state the main loop reaches (InlinesTotal3Main.reach) on NUL-free, right-trimmed, valid
+   UTF-8 content under the premises of 1g, when url_match answers at pos the trailing Text siblings spell its rewind
+   (InlinesTotal3Walk.TH: each Text the rewind walks over ends in ASCII letters, the one it shortens has an end column
+   >= what is taken away).  NOT PROVED (tested by evaluation: InlinesTotal3Test.corpus_all_ok and a random corpus).
+   It needs, per arm of parse_inline, that the last byte consumed is not a letter or the appended node is the Text
+   of the consumed bytes: for the raw-HTML forms of handle_pointy_brace that take `scanner match + k` bytes (CDATA,
+   declaration, processing instruction) this is where valid UTF-8 enters (witness 1e).
+   PROVED: with it the corrected full statement follows (inlines_total_from_T); without it: totality with the
+   autolink extension off (1h), and for every option set the 60 sites of 1g. *)
+Definition inlines_T_statement : Prop := InlinesTotal3Main.inlines_T_statement.
+
+Theorem inlines_total_from_T : inlines_T_statement -> inlines_total_statement.
+Proof. exact InlinesTotal3Main.inlines_total_from_T. Qed.
+Print Assumptions inlines_total_from_T.
+
+(* (S) and (T) hold in every state of the main loop, and the zipper of pe_loop stays embedded in every iteration of the
+   final process_emphasis, on the 134 contents of InlinesTotal3Test.corpus under four option sets (evaluation) *)
+From V Require Proofs.InlinesTotal3Test.
+Theorem inlines_S_T_hold_on_corpus :
+  InlinesTotal3Test.run_all (InlinesTotal3Test.io_all true) = []
+  /\ InlinesTotal3Test.run_all (InlinesTotal3Test.io_all false) = []
+  /\ InlinesTotal3Test.run_all InlinesTotal3Test.io_relaxed = []
+  /\ InlinesTotal3Test.run_all io_default = [].
+Proof. exact InlinesTotal3Test.corpus_all_ok. Qed.
+Print Assumptions inlines_S_T_hold_on_corpus.
